@@ -4,7 +4,7 @@
 # usage: tools/validate-fixes.sh [secs-per-check]
 cd "$(dirname "$0")/.."
 SECS="${1:-8}"
-declare -A PROP=( [ce00669]=C01 [7559c88]="C01 C06" [ace7ed3]=C11 [c2d49ca]=C01 [4bb5c0e]="C05 C03" [058d531]=C13 [2b702e5]=C15 [5840cb6]=C07 [d0721d2]=C10 [3b6fb5f]=C18 [bb5c943]=C19 )
+declare -A PROP=( [ce00669]=C01 [7559c88]="C01 C06" [ace7ed3]=C11 [c2d49ca]=C01 [4bb5c0e]="C05 C03" [058d531]=C13 [2b702e5]=C15 [5840cb6]=C07 [d0721d2]=C10 [3b6fb5f]=C18 [bb5c943]=C19 [f5f0c50]=C18 )
 fail=0
 for c in $(git -C /repo log --format=%h --grep='^fix:' --reverse); do
   props="${PROP[$c]:-}"; [ -z "$props" ] && { echo "?? $c has no property mapping"; continue; }
